@@ -276,6 +276,28 @@ func runC18(r *Run) {
 			}
 		}
 		r.atLeast("search+append pairs", n, 1)
+		// a cookie found in the jar (still referenced by the host's slice) is never released to the pool here
+		nr := 0
+		for _, fn := range append([]*ssa.Function{f}, anonFuncsDeep(f)...) {
+			for _, s := range callsMatching(fn, false, nameHasSuffix("client.searchCookieByKeyAndPath")) {
+				for _, rel := range callsMatching(fn, false, nameHasSuffix("fasthttp.ReleaseCookie")) {
+					if dependsOn(rel.Common.Args[0], func(v ssa.Value) bool { return v == s.Value() }) == nil {
+						continue
+					}
+					nr++
+					okNo := false
+					for _, br := range ifsOnValue(fn, s.Value()) {
+						if sl, ok := br.nilSlot(false); ok {
+							_, hit := reachEdge(edge{br.If.Block(), sl}, func(in ssa.Instruction) bool { return in == rel.Instr }, nil, nil)
+							okNo = hit == nil
+						}
+					}
+					r.check(okNo, f.Name()+":found-element-not-released", r.pos(rel.Instr), "from the found edge ReleaseCookie is unreachable (only cookies created here are released)",
+						"a cookie found in the jar can be released to fasthttp's pool while the host's slice still references it: the next AcquireCookie anywhere reuses the object, so this host's slot becomes another host's cookie")
+				}
+			}
+		}
+		r.atLeast("search+release pairs", nr, 1)
 	})
 
 	r.rule("R5", "host-key normaliser agreement (E5)", func() {
